@@ -5,6 +5,7 @@ mod c03;
 mod c09;
 mod c12;
 mod c13;
+mod c14;
 mod c15;
 
 use simk::runner::{harness_error, main_for, Check};
@@ -22,6 +23,7 @@ fn main() {
         "C09" => &c09::C09,
         "C12" => &c12::C12,
         "C13" => &c13::C13,
+        "C14" => &c14::C14,
         "C15" => &c15::C15,
         o => harness_error(&format!("no check for property {o}")),
     };
